@@ -250,6 +250,14 @@ var c13NestedPool = []bareItem{
 	{"iri", "https://example.com/items/1", ""},
 }
 
+// pairwise distinct ids that are not hierarchical URLs (no host): URNs, tag:, did:, mailto:
+var c13OpaquePool = []bareItem{
+	{"object", "urn:uuid:6e8bc430-9c3a-11d9-9669-0800200c9a66", "Note"},
+	{"object", "urn:uuid:7f9cd541-9c3a-11d9-9669-0800200c9a66", "Note"},
+	{"iri", "tag:example.com,2024:post-1", ""},
+	{"actor", "did:example:123456789abcdefghi", "Person"},
+}
+
 // pools whose members are NOT pairwise distinct (scheme/case/slash variants, iri vs object of one id)
 var c13LoosePools = [][]bareItem{
 	{{"iri", "https://example.com/a", ""}, {"iri", "http://EXAMPLE.com/a/", ""}, {"object", "https://example.com/a", "Note"}, {"object", "https://example.com/b", "Note"}},
@@ -307,10 +315,12 @@ func init() {
 					init = []int{}
 				}
 				pool := c13Pool
-				if i%3 == 1 {
+				if i%4 == 1 {
 					pool = c13NestedPool
-				} else if i%3 == 2 {
+				} else if i%4 == 2 {
 					pool = c13RichPool
+				} else if i%4 == 3 {
+					pool = c13OpaquePool
 				}
 				c13Case(c, collCase{Kind: kind, Pool: pool, Init: init, Ops: h, Distinct: true})
 			}
